@@ -18,17 +18,17 @@ macro_rules! unroll {
     }};
 }
 
-/// The slot array lives in its own heap object (`Box`), not inline: Kani 0.68 / CBMC 6.11 lose writes of
-/// symbolic values into an inline array of `Option`s that sits inside an enum variant (a six-line harness
-/// `enum E { A([Option<(usize,i64)>;4]), B }; m[0] = Some((5, v)); assert key == 5` FAILS there, and the native
-/// replay of that "counterexample" passes) — found by the replay step on C30; see DESIGN.md §7.
+/// The four slots are four plain fields, not an array: Kani 0.68 / CBMC 6.11 lose writes of symbolic
+/// values into an inline ARRAY that sits inside an enum variant (a six-line harness
+/// `enum E { A([Option<(usize,i64)>;4]), B }; m[0] = Some((5, v)); assert key == 5` FAILS there and the native
+/// replay of that "counterexample" passes; plain fields and heap arrays are fine, the latter 30x slower).
+/// Found by the replay step on C30; see DESIGN.md §7.
+#[derive(Clone)]
 pub struct HashMap<K, V> {
-    slots: Box<[Option<(K, V)>; CAP]>,
-}
-impl<K: Clone, V: Clone> Clone for HashMap<K, V> {
-    fn clone(&self) -> Self {
-        HashMap { slots: self.slots.clone() }
-    }
+    s0: Option<(K, V)>,
+    s1: Option<(K, V)>,
+    s2: Option<(K, V)>,
+    s3: Option<(K, V)>,
 }
 impl<K: std::fmt::Debug, V: std::fmt::Debug> std::fmt::Debug for HashMap<K, V> {
     fn fmt(&self, f: &mut std::fmt::Formatter<'_>) -> std::fmt::Result {
@@ -44,15 +44,25 @@ impl<K, V> Default for HashMap<K, V> {
 
 impl<K, V> HashMap<K, V> {
     pub fn new() -> Self {
-        HashMap { slots: Box::new([None, None, None, None]) }
+        HashMap { s0: None, s1: None, s2: None, s3: None }
     }
     #[inline(always)]
-    fn s(&self) -> &[Option<(K, V)>; CAP] {
-        &self.slots
+    fn slot(&self, i: usize) -> &Option<(K, V)> {
+        match i {
+            0 => &self.s0,
+            1 => &self.s1,
+            2 => &self.s2,
+            _ => &self.s3,
+        }
     }
     #[inline(always)]
-    fn sm(&mut self) -> &mut [Option<(K, V)>; CAP] {
-        &mut self.slots
+    fn slot_mut(&mut self, i: usize) -> &mut Option<(K, V)> {
+        match i {
+            0 => &mut self.s0,
+            1 => &mut self.s1,
+            2 => &mut self.s2,
+            _ => &mut self.s3,
+        }
     }
     pub fn with_capacity(_n: usize) -> Self {
         Self::new()
@@ -60,7 +70,7 @@ impl<K, V> HashMap<K, V> {
     pub fn len(&self) -> usize {
         let mut n = 0;
         unroll!(i, {
-            if self.s()[i].is_some() {
+            if (*self.slot(i)).is_some() {
                 n += 1;
             }
         });
@@ -71,14 +81,15 @@ impl<K, V> HashMap<K, V> {
     }
     pub fn clear(&mut self) {
         unroll!(i, {
-            self.sm()[i] = None;
+            (*self.slot_mut(i)) = None;
         });
     }
     pub fn iter(&self) -> Iter<'_, K, V> {
         Iter { m: self, i: 0 }
     }
     pub fn iter_mut(&mut self) -> impl Iterator<Item = (&K, &mut V)> {
-        self.sm().iter_mut().filter_map(|s| s.as_mut().map(|(k, v)| (&*k, v)))
+        let HashMap { s0, s1, s2, s3 } = self;
+        [s0, s1, s2, s3].into_iter().filter_map(|s| s.as_mut().map(|(k, v)| (&*k, v)))
     }
     pub fn keys(&self) -> Keys<'_, K, V> {
         Keys(self.iter())
@@ -87,16 +98,17 @@ impl<K, V> HashMap<K, V> {
         Values(self.iter())
     }
     pub fn values_mut(&mut self) -> impl Iterator<Item = &mut V> {
-        self.sm().iter_mut().filter_map(|s| s.as_mut().map(|(_, v)| v))
+        let HashMap { s0, s1, s2, s3 } = self;
+        [s0, s1, s2, s3].into_iter().filter_map(|s| s.as_mut().map(|(_, v)| v))
     }
     pub fn retain<F: FnMut(&K, &mut V) -> bool>(&mut self, mut f: F) {
         unroll!(i, {
-            let keep = match self.sm()[i].as_mut() {
+            let keep = match (*self.slot_mut(i)).as_mut() {
                 Some((k, v)) => f(k, v),
                 None => true,
             };
             if !keep {
-                self.sm()[i] = None;
+                (*self.slot_mut(i)) = None;
             }
         });
     }
@@ -109,7 +121,7 @@ impl<K: PartialEq, V> HashMap<K, V> {
         Q: PartialEq,
     {
         unroll!(i, {
-            if let Some((kk, _)) = &self.s()[i] {
+            if let Some((kk, _)) = &(*self.slot(i)) {
                 if kk.borrow() == k {
                     return Some(i);
                 }
@@ -119,13 +131,13 @@ impl<K: PartialEq, V> HashMap<K, V> {
     }
     pub fn insert(&mut self, k: K, v: V) -> Option<V> {
         if let Some(i) = self.find(&k) {
-            let old = self.sm()[i].take();
-            self.sm()[i] = Some((k, v));
+            let old = (*self.slot_mut(i)).take();
+            (*self.slot_mut(i)) = Some((k, v));
             return old.map(|(_, v)| v);
         }
         unroll!(i, {
-            if self.s()[i].is_none() {
-                self.sm()[i] = Some((k, v));
+            if (*self.slot(i)).is_none() {
+                (*self.slot_mut(i)) = Some((k, v));
                 return None;
             }
         });
@@ -137,7 +149,7 @@ impl<K: PartialEq, V> HashMap<K, V> {
         Q: PartialEq,
     {
         match self.find(k) {
-            Some(i) => self.sm()[i].take().map(|(_, v)| v),
+            Some(i) => (*self.slot_mut(i)).take().map(|(_, v)| v),
             None => None,
         }
     }
@@ -147,7 +159,7 @@ impl<K: PartialEq, V> HashMap<K, V> {
         Q: PartialEq,
     {
         match self.find(k) {
-            Some(i) => self.s()[i].as_ref().map(|(_, v)| v),
+            Some(i) => (*self.slot(i)).as_ref().map(|(_, v)| v),
             None => None,
         }
     }
@@ -157,7 +169,7 @@ impl<K: PartialEq, V> HashMap<K, V> {
         Q: PartialEq,
     {
         match self.find(k) {
-            Some(i) => self.sm()[i].as_mut().map(|(_, v)| v),
+            Some(i) => (*self.slot_mut(i)).as_mut().map(|(_, v)| v),
             None => None,
         }
     }
@@ -184,7 +196,7 @@ impl<'a, K, V> Iterator for Iter<'a, K, V> {
         let mut out = None;
         unroll!(j, {
             if out.is_none() && j >= self.i {
-                if let Some((k, v)) = &self.m.s()[j] {
+                if let Some((k, v)) = &(*self.m.slot(j)) {
                     out = Some((k, v));
                     self.i = j + 1;
                 }
@@ -229,18 +241,18 @@ impl<'a, K: PartialEq, V> Entry<'a, K, V> {
             None => {
                 let mut free = CAP;
                 unroll!(i, {
-                    if self.map.sm()[i].is_none() && free == CAP {
+                    if (*self.map.slot_mut(i)).is_none() && free == CAP {
                         free = i;
                     }
                 });
                 if free == CAP {
                     panic!("VK-REPLAY-SHIM vkcoll capacity exceeded");
                 }
-                self.map.sm()[free] = Some((self.key, f()));
+                (*self.map.slot_mut(free)) = Some((self.key, f()));
                 free
             }
         };
-        self.map.sm()[idx].as_mut().map(|(_, v)| v).unwrap()
+        (*self.map.slot_mut(idx)).as_mut().map(|(_, v)| v).unwrap()
     }
     pub fn or_insert(self, v: V) -> &'a mut V {
         self.or_insert_with(|| v)
